@@ -9,11 +9,12 @@ Section Laws.
   Variable mklink : dm -> cid.
   Variable f : option dm -> option dm.
   Variable cp : bool.
+  Variable fault : bool.
   Hypothesis f_wf : forall x v, owf x -> f x = Some v -> wf_dm v = true.
 
-  Notation FT := (ft ltb mklink q_fixed f cp).
+  Notation FT := (ft ltb mklink q_fixed f cp fault).
   Notation XU := (xupd ltb mklink f cp).
-  Notation FOCUS := (focused_transform ltb mklink q_fixed f cp).
+  Notation FOCUS := (focused_transform ltb mklink q_fixed f cp fault).
 
   Lemma focus_unfold fuel st root p :
     FOCUS fuel st root p =
@@ -62,7 +63,7 @@ Section Laws.
       intro E; apply (Hfin _ eq_refl E). reflexivity.
     - rewrite (ft_na_irrel fuel _ _ AVal).
       assert (Hna : na_ok AVal (s :: p2)) by (simpl; discriminate).
-      pose proof (ft_corr ltb mklink f cp f_wf fuel (Some t) AVal (s :: p2) (st, []) Hna (conj Hv Hw)) as Hc.
+      pose proof (ft_corr ltb mklink f cp fault f_wf fuel (Some t) AVal (s :: p2) (st, []) Hna (conj Hv Hw)) as Hc.
       cbn [option_map w_store fst] in Hc.
       pose proof (xupd_cons_some ltb mklink f cp st t s p2) as Hnn.
       destruct (XU st (Some t) (s :: p2)) as [[t'|] seen| e |]; auto.
@@ -79,7 +80,7 @@ Section Laws.
   (* ---- and the errors are the SPEC's errors *)
   Theorem focus_err fuel st root p t e :
     raw t = root -> valid st t -> wfx t ->
-    FOCUS fuel st root p = Err e -> e <> EFuel ->
+    FOCUS fuel st root p = Err e -> e <> EFuel -> e <> EStore ->
     match xupdate ltb mklink f cp st t p with
     | XNeedLoad => True
     | XErr e' => e = e'
@@ -89,27 +90,27 @@ Section Laws.
   Proof.
     intros Hr Hv Hw. rewrite focus_unfold. unfold xupdate. subst root.
     destruct p as [|s p2].
-    - destruct fuel; [cbn; intros E Hne; inversion E; congruence|]. cbn [ft xupd option_map bind].
+    - destruct fuel; [cbn; intros E Hne _; inversion E; congruence|]. cbn [ft xupd option_map bind].
       destruct (f (Some (raw t))) as [v|] eqn:Ef; cbn [assign_node option_map].
       + unfold root_accepts. rewrite raw_inject.
         destruct (kind_eqb (kind_of v) (kind_of (raw t))) eqn:Ek.
         * destruct v; cbn; try discriminate.
-          destruct (z <? two63z); cbn; [discriminate|]. intros E _; inversion E; auto.
-        * cbn. intros E _; inversion E; auto.
-      + cbn. intros E _; inversion E; auto.
+          destruct (z <? two63z); cbn; [discriminate|]. intros E _ _; inversion E; auto.
+        * cbn. intros E _ _; inversion E; auto.
+      + cbn. intros E _ _; inversion E; auto.
     - rewrite (ft_na_irrel fuel _ _ AVal).
       assert (Hna : na_ok AVal (s :: p2)) by (simpl; discriminate).
-      pose proof (ft_corr ltb mklink f cp f_wf fuel (Some t) AVal (s :: p2) (st, []) Hna (conj Hv Hw)) as Hc.
+      pose proof (ft_corr ltb mklink f cp fault f_wf fuel (Some t) AVal (s :: p2) (st, []) Hna (conj Hv Hw)) as Hc.
       cbn [option_map w_store fst] in Hc.
       pose proof (xupd_cons_some ltb mklink f cp st t s p2) as Hnn.
       destruct (XU st (Some t) (s :: p2)) as [[t'|] seen| e' |]; auto;
         destruct (FT fuel (Some (raw t)) AVal (s :: p2) (st, [])) as [[s0 w1]|e0]; cbn [corr bind] in *.
       + destruct Hc as (H1 & _). subst s0. cbn. discriminate.
-      + intros E Hne; inversion E; subst. contradiction.
+      + intros E Hne Hns; inversion E; subst. destruct Hc; contradiction.
       + exfalso. now apply (Hnn seen).
       + exfalso. now apply (Hnn seen).
       + contradiction.
-      + intros E Hne; inversion E; subst. destruct Hc; [contradiction | assumption].
+      + intros E Hne Hns; inversion E; subst. destruct Hc as [[Hc|Hc]|Hc]; [contradiction | contradiction | assumption].
   Qed.
 End Laws.
 
@@ -182,7 +183,8 @@ Section Monotone.
   Variable q : quirks.
   Variable f : option dm -> option dm.
   Variable cp : bool.
-  Notation FTq := (ft ltb mklink q f cp).
+  Variable fault : bool.
+  Notation FTq := (ft ltb mklink q f cp fault).
 
   Definition rec_mono (rec : option dm -> asm -> path -> world -> res xerr (slot * world)) : Prop :=
     forall n na p w s w', rec n na p w = Ok (s, w') -> extends (w_store w) (w_store w').
@@ -243,6 +245,7 @@ Section Monotone.
           destruct (FTq fu (Some d) AAny (seg :: p2) w) as [[s0 w1]|e0] eqn:ER; [|discriminate]. cbn.
           destruct s0; [|discriminate].
           destruct (q_any_nil q && has_nil v); [discriminate|].
+          destruct (fault || has_refused v); [discriminate|].
           unfold store_block. intro E; inversion E; subst. cbn.
           eapply extends_trans; [eapply IH; eassumption | apply put_extends].
         * (* list *)
@@ -282,7 +285,7 @@ Section Monotone.
 
   (* st ⊆ st': every block keeps its link, for every quirk setting *)
   Theorem focus_mono fuel st root p res st' log :
-    focused_transform ltb mklink q f cp fuel st root p = Ok (res, (st', log)) -> extends st st'.
+    focused_transform ltb mklink q f cp fault fuel st root p = Ok (res, (st', log)) -> extends st st'.
   Proof.
     unfold focused_transform.
     assert (H : forall k, (do sw <- FTq fuel (Some root) (ARoot k) p (st, []);
@@ -300,6 +303,7 @@ Section Identity.
   Variable ltb : bytes -> bytes -> bool.
   Variable mklink : dm -> cid.
   Variable cp : bool.
+  Variable fault : bool.
   Definition fid : option dm -> option dm := fun x => x.
   Notation XUid := (xupd ltb mklink fid cp).
 
@@ -390,12 +394,12 @@ Section Identity.
   Theorem focus_identity fuel st root p t tx res st' log :
     raw t = root -> valid st t -> wfx t -> store_wf st ->
     xfocus (Some t) p = Some tx ->
-    focused_transform ltb mklink q_fixed fid cp fuel st root p = Ok (res, (st', log)) ->
+    focused_transform ltb mklink q_fixed fid cp fault fuel st root p = Ok (res, (st', log)) ->
     res = root.
   Proof.
     intros Hr Hv Hw Hst Hf HF.
     destruct (xupd_id_raw st Hst p t tx Hv Hw Hf) as [t' [EX Hr']].
-    pose proof (focus_ok ltb mklink fid cp fid_wf fuel st root p t res st' log Hr Hv Hw HF) as H.
+    pose proof (focus_ok ltb mklink fid cp fault fid_wf fuel st root p t res st' log Hr Hv Hw HF) as H.
     unfold xupdate in H. rewrite EX in H. destruct H as (H & _). congruence.
   Qed.
 End Identity.
@@ -405,21 +409,22 @@ Section Sequences.
   Variable ltb : bytes -> bytes -> bool.
   Variable mklink : dm -> cid.
 
-  Definition tstep := (path * (option dm -> option dm) * bool)%type.
-  Definition step_wf (s : tstep) : Prop := forall x v, owf x -> snd (fst s) x = Some v -> wf_dm v = true.
+  (* path, callback, createParents, storage fault *)
+  Definition tstep := (path * (option dm -> option dm) * bool * bool)%type.
+  Definition step_wf (s : tstep) : Prop := forall x v, owf x -> snd (fst (fst s)) x = Some v -> wf_dm v = true.
 
   Fixpoint mseq (fuel : nat) (steps : list tstep) (st : store) (root : dm) : res xerr (dm * store) :=
     match steps with
     | [] => Ok (root, st)
-    | (p, f, cp) :: r =>
-        do x <- focused_transform ltb mklink q_fixed f cp fuel st root p;
+    | (p, f, cp, fault) :: r =>
+        do x <- focused_transform ltb mklink q_fixed f cp fault fuel st root p;
         mseq fuel r (fst (snd x)) (fst x)
     end.
 
   Fixpoint xseq (steps : list tstep) (t : xt) : option xt :=
     match steps with
     | [] => Some t
-    | (p, f, cp) :: r =>
+    | (p, f, cp, _) :: r =>
         match xupdate ltb mklink f cp [] t p with
         | XOk (Some t') _ => xseq r t'
         | _ => None
@@ -431,9 +436,9 @@ Section Sequences.
 
   Lemma mseq_mono fuel : forall steps st root res st', mseq fuel steps st root = Ok (res, st') -> extends st st'.
   Proof.
-    induction steps as [|[[p f] cp] r IH]; intros st root res st'; cbn [mseq].
+    induction steps as [|[[[p f] cp] fault] r IH]; intros st root res st'; cbn [mseq].
     - intro E; inversion E; subst. apply extends_refl.
-    - destruct (focused_transform ltb mklink q_fixed f cp fuel st root p) as [[r1 [st1 l1]]|e0] eqn:EF; [|discriminate].
+    - destruct (focused_transform ltb mklink q_fixed f cp fault fuel st root p) as [[r1 [st1 l1]]|e0] eqn:EF; [|discriminate].
       cbn. intro E. eapply extends_trans; [eapply focus_mono; eassumption | eapply IH; eassumption].
   Qed.
 
@@ -444,14 +449,14 @@ Section Sequences.
     xseq steps t = Some t_f ->
     res = raw t_f /\ valid st_f t_f /\ wfx t_f /\ extends st st_f.
   Proof.
-    induction steps as [|[[p f] cp] r IH]; intros st root t res st_f t_f Hs Hr Hv Hw; cbn [mseq xseq].
+    induction steps as [|[[[p f] cp] fault] r IH]; intros st root t res st_f t_f Hs Hr Hv Hw; cbn [mseq xseq].
     - intros E _ E2; inversion E; inversion E2; subst. repeat split; auto. apply extends_refl.
     - inversion Hs as [|s0 r0 Hs1 Hs2]; subst.
-      destruct (focused_transform ltb mklink q_fixed f cp fuel st (raw t) p) as [[r1 [st1 l1]]|e0] eqn:EF; [|discriminate].
+      destruct (focused_transform ltb mklink q_fixed f cp fault fuel st (raw t) p) as [[r1 [st1 l1]]|e0] eqn:EF; [|discriminate].
       cbn [bind fst snd]. intros EM Hco.
       destruct (xupdate ltb mklink f cp [] t p) as [[t'|] seen| |] eqn:EX; try discriminate.
       intro EXS.
-      pose proof (focus_ok ltb mklink f cp Hs1 fuel st (raw t) p t r1 st1 l1 eq_refl Hv Hw EF) as H.
+      pose proof (focus_ok ltb mklink f cp fault Hs1 fuel st (raw t) p t r1 st1 l1 eq_refl Hv Hw EF) as H.
       unfold xupdate in *. rewrite (xupd_store_irrel ltb mklink f cp [] st _ _ _ _ EX) in H.
       destruct H as (H1 & H2 & H3 & H4 & _).
       pose proof (mseq_mono fuel r st1 r1 res st_f EM) as Hm.
@@ -459,6 +464,37 @@ Section Sequences.
       { apply H3; [apply extends_refl | eapply coherent_down; eassumption]. }
       destruct (IH st1 r1 t' res st_f t_f Hs2 (eq_sym H1) Hv1 H4 EM Hco EXS) as (A & B & C & D).
       repeat split; auto. eapply extends_trans; eassumption.
+  Qed.
+
+  (* A run in which transforms may fail (path errors, refused stores, storage faults): a failed
+     transform leaves root and store as they were, the run goes on.  Such a run is the run of the
+     transforms that succeeded, so [focus_seq] applies to it. *)
+  Fixpoint mseq_tol (fuel : nat) (steps : list tstep) (st : store) (root : dm) : dm * store :=
+    match steps with
+    | [] => (root, st)
+    | (p, f, cp, fault) :: r =>
+        match focused_transform ltb mklink q_fixed f cp fault fuel st root p with
+        | Ok x => mseq_tol fuel r (fst (snd x)) (fst x)
+        | Err _ => mseq_tol fuel r st root
+        end
+    end.
+  Fixpoint survivors (fuel : nat) (steps : list tstep) (st : store) (root : dm) : list tstep :=
+    match steps with
+    | [] => []
+    | (p, f, cp, fault) :: r =>
+        match focused_transform ltb mklink q_fixed f cp fault fuel st root p with
+        | Ok x => (p, f, cp, fault) :: survivors fuel r (fst (snd x)) (fst x)
+        | Err _ => survivors fuel r st root
+        end
+    end.
+
+  Theorem mseq_tol_survivors fuel : forall steps st root,
+    mseq fuel (survivors fuel steps st root) st root = Ok (mseq_tol fuel steps st root).
+  Proof.
+    induction steps as [|[[[p f] cp] fault] r IH]; intros st root; cbn [survivors mseq_tol]; [reflexivity|].
+    destruct (focused_transform ltb mklink q_fixed f cp fault fuel st root p) as [x|e] eqn:EF.
+    - cbn [mseq]. rewrite EF. cbn [bind]. apply IH.
+    - apply IH.
   Qed.
 End Sequences.
 
@@ -469,10 +505,11 @@ Section Quirks.
   Variable q : quirks.
   Variable f : option dm -> option dm.
   Variable cp : bool.
+  Variable fault : bool.
   Hypothesis f_some : forall x, f x <> None.     (* the callback never asks for a removal *)
 
-  Notation FTq := (ft ltb mklink q f cp).
-  Notation FT0 := (ft ltb mklink q_fixed f cp).
+  Notation FTq := (ft ltb mklink q f cp fault).
+  Notation FT0 := (ft ltb mklink q_fixed f cp fault).
 
   (* no negative index on the path; "-" only as the last segment unless parents may be created *)
   Definition seg_ok (s : bytes) : bool := match parse_int s with Some z => 0 <=? z | None => true end.
@@ -583,10 +620,10 @@ Section Quirks.
   (* On this domain every run of the model that does not panic is a run of the repaired model *)
   Theorem focus_quirks_irrelevant fuel st root p r :
     path_ok p ->
-    focused_transform ltb mklink q f cp fuel st root p = Ok r ->
-    focused_transform ltb mklink q_fixed f cp fuel st root p = Ok r.
+    focused_transform ltb mklink q f cp fault fuel st root p = Ok r ->
+    focused_transform ltb mklink q_fixed f cp fault fuel st root p = Ok r.
   Proof.
-    intros Hp. rewrite (focus_unfold ltb mklink f cp).
+    intros Hp. rewrite (focus_unfold ltb mklink f cp fault).
     assert (H : forall k, (do sw <- FTq fuel (Some root) (ARoot k) p (st, []);
                            match fst sw with Put v => Ok (v, snd sw) | Skip => Err EPanic end) = Ok r ->
                           (do sw <- FT0 fuel (Some root) (ARoot k) p (st, []);
@@ -603,18 +640,19 @@ Section Sees.
   Variable mklink : dm -> cid.
   Variable f : option dm -> option dm.
   Variable cp : bool.
+  Variable fault : bool.
   Hypothesis f_wf : forall x v, owf x -> f x = Some v -> wf_dm v = true.
 
   (* every call of the callback during a completed transform is shown the node the path addresses in
      the tree as it is now (None: nothing there), and there is at least one call *)
   Theorem focus_callback_sees fuel st root p t res st' log :
     raw t = root -> valid st t -> wfx t ->
-    focused_transform ltb mklink q_fixed f cp fuel st root p = Ok (res, (st', log)) ->
+    focused_transform ltb mklink q_fixed f cp fault fuel st root p = Ok (res, (st', log)) ->
     xupdate ltb mklink f cp st t p <> XNeedLoad ->
     log <> [] /\ Forall (fun x => x = option_map raw (xfocus (Some t) p)) log.
   Proof.
     intros Hr Hv Hw HF Hnl.
-    pose proof (focus_ok ltb mklink f cp f_wf fuel st root p t res st' log Hr Hv Hw HF) as H.
+    pose proof (focus_ok ltb mklink f cp fault f_wf fuel st root p t res st' log Hr Hv Hw HF) as H.
     unfold xupdate in *.
     destruct (xupd ltb mklink f cp st (Some t) p) as [[t'|] seen| |] eqn:EX; try contradiction.
     destruct H as (_ & _ & _ & _ & (k & Hk & Hl) & _). subst log.
